@@ -310,8 +310,16 @@ def _search_loop(ex, s, st, dom, ordn):
     stq.pc.append(z3.And(jq >= 0, jq < dom.n))
     nobl = len(ex.obls)
     ex.assign(s.target, dom.at(jq, stq), stq, s)
+    stq.env["_pos"] = T.mk_int(jq)       # ghost: position in the iterated sequence (for site contracts)
+    if dom.seq is not None:
+        stq.env["_iter"] = dom.seq
     heap0 = dict(stq.heap)
+    env0 = dict(stq.env)
+    mark_jq = len(ex.obls)
     body_outs = ex.run_block(s.body, stq)
+    # site contracts speak about the iteration that actually leaves the loop: they are generated in the i0 pass
+    ex.obls[mark_jq:] = [o for o in ex.obls[mark_jq:] if o.kind != "site"]
+    fall_assigned = set(_target_names(s.target))
     # obligations generated while exploring iteration jq hold for arbitrary jq -> keep (jq free)
     exit_conds = []
     for o in body_outs:
@@ -319,6 +327,9 @@ def _search_loop(ex, s, st, dom, ordn):
             # a fall-through iteration must leave the heap untouched, otherwise this is not a search loop
             if set(o.st.heap) != set(heap0) or any(not o.st.heap[k].eq(heap0[k]) for k in heap0):
                 raise NotSearch()
+            for n_, v_ in o.st.env.items():
+                if env0.get(n_) is not v_:
+                    fall_assigned.add(n_)
     for o in body_outs:
         if o.kind in ("break", "return", "raise"):
             exit_conds.append(z3.And(*o.st.pc[base_len + 1:]) if len(o.st.pc) > base_len + 1 else z3.BoolVal(True))
@@ -335,20 +346,23 @@ def _search_loop(ex, s, st, dom, ordn):
         st1.trace.append(f"L{ordn}@")
         mark = len(ex.obls)
         ex.assign(s.target, dom.at(i0, st1), st1, s)
+        st1.env["_pos"] = T.mk_int(i0)
+        if dom.seq is not None:
+            st1.env["_iter"] = dom.seq
         for o in ex.run_block(s.body, st1):
             if o.kind == "break":
                 outs.append(Outcome("normal", o.st))
             elif o.kind in ("return", "raise"):
                 outs.append(o)
             # normal/continue at i0 contradicts "i0 is the exit index": drop
-        # obligations of this pass duplicate those of the jq pass: drop them
-        del ex.obls[mark:]
+        # obligations of this pass duplicate those of the jq pass, except the site contracts
+        ex.obls[mark:] = [o for o in ex.obls[mark:] if o.kind == "site"]
     # 3. not found: loop runs to completion without effect
     st2 = st.fork()
     st2.pc.append(no_exit_before(dom.n))
     if ex.feasible(st2.pc):
         st2.trace.append(f"L{ordn}-")
-        for n in temps:
+        for n in (temps & fall_assigned):
             if n in st2.env:
                 st2.env[n] = T.fresh(st2.env[n].ty, n)
             else:
